@@ -486,6 +486,7 @@ def main(tier: str, seed: int, replay: str | None = None) -> int:
     rep.proof_stage()
     rep.proof_stage("C04_sub")      # ... and for operators with subtype constraints x <= A / x < A
     rep.proof_stage("C04_elim")     # ... and for operators with elimination constraints over base-type alternatives
+    rep.proof_stage("C04_conc")     # the declared constraints of every operator leaf hold, for concrete targets/alternatives of any shape
     rep.proof_stage("C04_gen")      # node typing, leaf instances, annotations, re-fixed tree for operators with ARBITRARY constraints
     rep.proof_stage("C04_core")     # every node well-typed, leaves are instances, annotations hold - unconditionally for constraint-free operators
     rng = random.Random(seed)
